@@ -36,12 +36,20 @@ def _subsets(names):
 
 def gen_cases(tier, seed):
     rng = np.random.default_rng([seed, 11])
-    reps = 2 if tier == "quick" else 30
+    reps = 3 if tier == "quick" else 30
     cases = []
     for fam in S.ALL_FAMS:
         for sub in _subsets(R.PARAMS[fam]):
             for r in range(reps):
                 gen = S.draw_params(rng, fam, S.RANGE)
+                # hostile fixed values: exactly zero for location parameters (falsy), exactly one / the default
+                for k in sub:
+                    kind = S.KIND[fam][k]
+                    u = rng.random()
+                    if kind in ("loc", "loc+") and u < 0.35:
+                        gen[k] = 0.0
+                    elif kind == "pos" and u < 0.15:
+                        gen[k] = 1.0
                 methods = ["mle"]
                 if fam == "expweib":
                     methods += ["lsq", "wlsq"]
